@@ -9,6 +9,7 @@ mod c07;
 mod c11;
 mod schema;
 mod c05;
+mod c06;
 
 use std::collections::HashMap;
 
@@ -56,6 +57,8 @@ fn main() {
         "c07" => c07::run(&args),
         "c11" => c11::run(&args),
         "c05" => c05::run(&args),
+        "c06" => c06::run(&args),
+        "c06b64" => c06::run_b64(&args),
         other => {
             eprintln!("unknown command {other}");
             2
